@@ -201,3 +201,57 @@ int tk_split_msgs(const unsigned char *p, int len, tk_msg_t *out, int max)
     }
     return off == len ? n : -1;
 }
+
+/* ------------------------------------------------------------------ TLS 1.2 */
+void tk12_prf_sha256(const unsigned char *secret, int slen, const char *label, const unsigned char *seed, int seedlen, unsigned char *out, int outlen)
+{
+    unsigned char ls[256], a[32], buf[32 + 256], t[32];
+    int ll = (int) strlen(label), l = ll + seedlen, done = 0;
+    unsigned int n = 0;
+    memcpy(ls, label, (size_t) ll);
+    memcpy(ls + ll, seed, (size_t) seedlen);
+    HMAC(EVP_sha256(), secret, slen, ls, (size_t) l, a, &n);          /* A(1) */
+    while (done < outlen)
+    {
+        memcpy(buf, a, 32);
+        memcpy(buf + 32, ls, (size_t) l);
+        HMAC(EVP_sha256(), secret, slen, buf, (size_t) (32 + l), t, &n);
+        memcpy(out + done, t, (size_t) ((outlen - done) < 32 ? (outlen - done) : 32));
+        done += 32;
+        HMAC(EVP_sha256(), secret, slen, a, 32, a, &n);               /* A(i+1) */
+    }
+}
+
+void tk12_finished(const unsigned char ms[48], int is_client, const buf_t *msgs, unsigned char vd[12])
+{
+    unsigned char h[32];
+    unsigned int l = 0;
+    EVP_Digest(msgs->p ? msgs->p : (const unsigned char *) "", msgs->len, h, &l, EVP_sha256(), NULL);
+    tk12_prf_sha256(ms, 48, is_client ? "client finished" : "server finished", h, 32, vd, 12);
+}
+
+/* GenericAEADCipher (RFC 5288): record = header || explicit_nonce(8) || ciphertext || tag(16) */
+int tk12_gcm_seal(const unsigned char *key, int keylen, const unsigned char salt[4], uint64_t seq, int type, const unsigned char *pt, int ptlen, unsigned char *rec)
+{
+    EVP_CIPHER_CTX *c = EVP_CIPHER_CTX_new();
+    unsigned char nonce[12], aad[13];
+    int i, ol = 0, fl = 0, bl = 8 + ptlen + 16, ok;
+    memcpy(nonce, salt, 4);
+    for (i = 0; i < 8; i++)
+    {
+        nonce[4 + i] = (unsigned char) (seq >> (8 * (7 - i)));
+        aad[i] = nonce[4 + i];
+    }
+    aad[8] = (unsigned char) type; aad[9] = 3; aad[10] = 3; aad[11] = (unsigned char) (ptlen >> 8); aad[12] = (unsigned char) ptlen;
+    rec[0] = (unsigned char) type; rec[1] = 3; rec[2] = 3; rec[3] = (unsigned char) (bl >> 8); rec[4] = (unsigned char) bl;
+    memcpy(rec + 5, nonce + 4, 8);
+    ok = EVP_EncryptInit_ex(c, keylen == 16 ? EVP_aes_128_gcm() : EVP_aes_256_gcm(), NULL, NULL, NULL) &&
+         EVP_CIPHER_CTX_ctrl(c, EVP_CTRL_AEAD_SET_IVLEN, 12, NULL) &&
+         EVP_EncryptInit_ex(c, NULL, NULL, key, nonce) &&
+         EVP_EncryptUpdate(c, NULL, &ol, aad, 13) &&
+         EVP_EncryptUpdate(c, rec + 13, &ol, pt, ptlen) &&
+         EVP_EncryptFinal_ex(c, rec + 13 + ol, &fl) &&
+         EVP_CIPHER_CTX_ctrl(c, EVP_CTRL_AEAD_GET_TAG, 16, rec + 13 + ptlen);
+    EVP_CIPHER_CTX_free(c);
+    return ok ? 5 + bl : -1;
+}
